@@ -71,6 +71,9 @@ type fnSpec struct {
 	// of the body both yield Result (the loop structure itself is guarded by a T2 fact).
 	LoopBody bool
 	Result   string
+	// SelectCase (with LoopBody): translate only the body of that case of the `select` statement in the innermost
+	// loop; the string is the printed communication of the case, e.g. "res := <-resChan".
+	SelectCase string
 	// Fuel: name of the `Nat` parameter (declared in Params) that bounds the iterations of every translated
 	// `for` loop: `for init; cond; post { body }` becomes `Go.loop fuel cond (body; post) state`, where the
 	// state is the tuple of outer variables the loop assigns. Theorems state how much fuel suffices.
@@ -1031,6 +1034,26 @@ func translateFn(repo string, sp *fnSpec) (string, error) {
 			return "", fmt.Errorf("%s.%s: no loop found", sp.File, sp.Func)
 		}
 		stmts = inner.List
+		if sp.SelectCase != "" {
+			var body []ast.Stmt
+			found := 0
+			for _, st := range inner.List {
+				sel, ok := st.(*ast.SelectStmt)
+				if !ok {
+					continue
+				}
+				for _, cc := range sel.Body.List {
+					if c, ok := cc.(*ast.CommClause); ok && c.Comm != nil && tr.str(c.Comm) == sp.SelectCase {
+						body = c.Body
+						found++
+					}
+				}
+			}
+			if found != 1 {
+				return "", fmt.Errorf("%s.%s: select case %q found %d times in the innermost loop", sp.File, sp.Func, sp.SelectCase, found)
+			}
+			stmts = body
+		}
 		fallOff = func(_ env, ind string) string { return ind + sp.Result }
 	}
 	body := tr.block(stmts, en, "  ", fallOff)
